@@ -221,11 +221,11 @@ func flatten(v interface{}, path string, out map[string]bool) {
 		if d, err := time.ParseDuration(x); err == nil && x != "0" {
 			x = d.String()
 		}
-		out[path+"="+x] = true
+		out[path+"=s:"+x] = true
 	case json.Number:
-		out[path+"="+x.String()] = true
+		out[path+"=n:"+x.String()] = true
 	case bool:
-		out[path+fmt.Sprintf("=%v", x)] = true
+		out[path+fmt.Sprintf("=b:%v", x)] = true
 	}
 }
 
@@ -234,7 +234,7 @@ func flatten(v interface{}, path string, out map[string]bool) {
 func normalised(fact string) bool {
 	i := strings.LastIndex(fact, "=")
 	path, val := fact[:i], fact[i+1:]
-	if val == "" || val == "0" || val == "false" || val == "0s" {
+	if val == "s:" || val == "n:0" || val == "b:false" || val == "s:0s" {
 		return true
 	}
 	for _, p := range []string{".listeners.network", ".clusters.max_request_per_conn", ".clusters.conn_buffer_limit_bytes",
@@ -243,7 +243,7 @@ func normalised(fact string) bool {
 			return true
 		}
 	}
-	if strings.Contains(path, ".filter_metadata.mosn.lb.") {
+	if strings.Contains(path, ".filter_metadata.mosn.lb.") && !strings.HasPrefix(val, "s:") {
 		return true // only string values are metadata
 	}
 	return false
